@@ -94,8 +94,19 @@ RULES = {
 import re as _re
 from . import rustlex as _lex
 
+# Global normalisations applied BEFORE a unit's own rules (so that the rules see one spelling):
+GLOBAL_PRE_RULES = [
+    # N9: formatting only -- a method chain broken over several lines by rustfmt is joined (`x\n    .m()` -> `x.m()`)
+    ('G_N9_join_method_chain', r'\s*\n\s*\.(?=[A-Za-z_])', '.'),
+    # N9: a redundant turbofish on collect (`.collect::<Vec<_>>()`): the target type is fixed by the binding / field it flows into
+    ('G_N9_collect_turbofish', r'\.collect::<(?:[^<>()]|<[^<>()]*>)*>\(\)', '.collect()'),
+]
+
 # Global normalisations, applied to every extracted function after its own rules (vx/gen.py):
 GLOBAL_RULES = [
+    # N4: debug_assert!/debug_assert_eq!/debug_assert_ne! exist in debug builds only (DESIGN 2.2 N4): whatever a unit's own
+    # N4 rule did not take is dropped
+    ('G_N4_debug_assert_drop', r'\bdebug_assert(?:_eq|_ne)?!\(\s*[^;]*?\);', ''),
     # N6: PollArray/PollVec::set_all_none / set_all_pending are `self.fill(PollState::X)` (poll_state/{array,vec}.rs)
     ('G_N6_set_all_none', r'(\bself\.\w+)\.set_all_none\(\)', r'\1.fill(PollState::None)'),
     ('G_N6_set_all_pending', r'(\bself\.\w+)\.set_all_pending\(\)', r'\1.fill(PollState::Pending)'),
